@@ -22,7 +22,7 @@ ALL_FEATURES = [
 class Profile(object):
     def __init__(self, allowed, weights=None, required=(), numeric="grid", max_nodes=3, max_classes=3,
                  plans=("max_time",), horizon=(4.0, 16.0), budget=600, max_c=3, caps=(0, 1, 2, 3),
-                 resumptions=(1, 3), load="mixed", excluded=(), seq_len=5, require_any=()):
+                 resumptions=(1, 3), load="mixed", excluded=(), seq_len=5, require_any=(), stay=0.0):
         self.allowed = set(allowed)
         self.weights = dict(weights or {})
         self.required = set(required)
@@ -39,6 +39,7 @@ class Profile(object):
         self.load = load
         self.excluded = tuple(excluded)     # names of known-finding exclusion predicates to apply
         self.seq_len = seq_len
+        self.stay = stay                    # probability that a transition-matrix row has no exit share
 
     def w(self, f, default=0.3):
         if f not in self.allowed:
@@ -268,7 +269,7 @@ def routing(draw, prof, n, self_loops, jockey, kinds):
     if k == "matrix":
         rows = []
         for i in range(1, n + 1):
-            row = _sub_probs(draw, n)
+            row = _dyadic_probs(draw, n) if (prof.stay and _flag(draw, prof.stay)) else _sub_probs(draw, n)
             if not self_loops:
                 row[i - 1] = 0.0
             # make zeros frequent: they are what the fidelity oracle needs
@@ -410,7 +411,7 @@ def netspec(draw, prof):
         spec["deadlock"] = True
     spec["seed"] = draw(st.integers(0, 10 ** 6))
     spec["plan"] = plan(draw, prof)
-    spec["event_budget"] = prof.budget
+    spec["event_budget"] = prof.budget * (2 if _thorough() else 1)
     if prof.excluded:
         import os
         from .findings import apply_exclusions
@@ -461,9 +462,16 @@ def tracker(draw, n, names):
     return t
 
 
+def _thorough():
+    import os
+    return os.environ.get("VERIF_ACTIVE_TIER") == "thorough"
+
+
 def plan(draw, prof):
     kind = draw(st.sampled_from(prof.plans))
     lo, hi = prof.horizon
+    if _thorough():
+        hi = hi * 1.6          # thorough tier: longer histories (event budget doubled as well)
     if kind == "max_time":
         k = draw(st.integers(*prof.resumptions))
         ts = sorted(set(draw(st.lists(st.integers(int(lo * 4), int(hi * 4)), min_size=k, max_size=k))))
